@@ -825,7 +825,8 @@ def make_custom_miri(prefixes):
                 cov['passed'] += 1; nontrivial.add(n); continue
             cov['failed'] += 1
             txt = vlib.strip_noise(out)
-            errs = [l.strip() for l in txt.split('\n') if l.startswith('error') and 'test failed' not in l and 'aborting due' not in l]
+            errs = [l.strip() for l in txt.split('\n') if ('Undefined Behavior' in l or 'memory leaked' in l or l.startswith('error')) and 'test failed' not in l and 'aborting due' not in l and 'occurred here' not in l]
+            errs = [re.sub(r'^test \S+ \.\.\. ', '', l) for l in errs]
             where = [l.strip() for l in txt.split('\n') if '/repo/src/' in l][:6]
             panic = [l.strip() for l in txt.split('\n') if 'panicked at' in l][:2]
             why = (errs[0] if errs else (panic[0] if panic else 'the scenario did not pass')) 
@@ -1631,6 +1632,8 @@ def gen_dpanic(tier, rng):
                 cases.append(('D%d' % n, [[20 + kind, ln, k]])); n += 1
     # the other owner is released DURING the payload's Clone inside unwrap_or_clone / make_mut / make_unique / OffsetArc::make_mut
     for j in range(0, 4): cases.append(('D%d' % n, [[40 + j, 0, 0]])); n += 1
+    # ... and the old value's destructor panics when the operation releases the old handle, which has become the last one
+    for j in range(1, 4): cases.append(('D%d' % n, [[40 + j, 0, 1]])); n += 1
     # copy-on-write / unwrap_or_clone of a shared value whose type has no drop glue, is not Copy, and whose Clone is not a bitwise copy
     for j in range(0, 4): cases.append(('D%d' % n, [[44 + j, 0, 0]])); n += 1
     # zero-sized headers / payloads with drop glue through the constructors
@@ -1672,6 +1675,14 @@ def oracle_dpanic(ops, io, ctx):
     if op[0] >= 40:
         what = ['unwrap_or_clone', 'make_mut', 'make_unique', 'OffsetArc::make_mut'][op[0] - 40] if op[0] < 44 else '?'
         if any(x in BAD_CT for x in d): return '%s with the other owner released during the clone: access to a dead value' % what
+        if op[2] == 1:
+            # ... and the old value's destructor panics while the operation releases the old handle (the last one)
+            if o[0] != 1: return '%s: the panic of the old value\'s destructor did not propagate' % what
+            if d.count(0) != 1: return '%s when the old value\'s destructor panics: the original value is destroyed %d times' % (what, d.count(0))
+            if d != [0, 1]: return '%s when the old value\'s destructor panics after the old allocation was released: the fresh copy is destroyed %d times before the handle is gone (the handle must own the fresh copy: lost copy, or a handle left pointing at the released block)' % (what, d.count(1))
+            if parts[2][:1] == [666666]: return '%s when the old value\'s destructor panics: the original block was released with a wrong layout or twice, or its counter was touched after the block had gone back to the allocator (a handle left pointing at the released block)' % what
+            if parts[2][:1] != [1]: return '%s when the old value\'s destructor panics: the original block is returned %s times' % (what, parts[2][:1])
+            return None
         if d != [0]: return '%s on a shared value whose other owner is released during the clone: the original value is destroyed %d times (it is neither handed out nor destroyed: lost)' % (what, d.count(0)) if 0 not in d or d.count(0) > 1 else None
         if parts[2][:1] != [1]: return '%s on a shared value whose other owner is released during the clone: the original block is returned %s times' % (what, parts[2][:1])
         return None
